@@ -152,7 +152,8 @@ def handler_action(h, fname, skip_head=False):
         v = last.value
         if v is None or (isinstance(v, ast.Constant) and v.value is None):
             return "ARetNone"
-        need(isinstance(v, ast.Constant) and isinstance(v.value, bool), "except clause of %s returns a non-constant" % fname)
+        if not (isinstance(v, ast.Constant) and isinstance(v.value, bool)):
+            return "ARetOther"      # accepted only where the return value goes back into a caller that just carries on
         return "ARetTrue" if v.value else "ARetFalse"
     # nested break / continue / return under a condition: the exception is contained either way, but the model
     # would not know which way control goes
@@ -182,8 +183,9 @@ def call_kind(node):
     if not isinstance(node, ast.Call):
         return None
     f = node.func
-    if isinstance(f, ast.Name) and f.id == "method":
-        return "KMethod"
+    if isinstance(f, ast.Name) and (f.id == "method" or (any(isinstance(a, ast.Starred) for a in node.args)
+                                                        and any(k.arg is None for k in node.keywords))):
+        return "KMethod"      # <callable>(*vargs, **kwargs): the call of the user's method, whatever the local is called
     if isinstance(f, ast.Attribute):
         if f.attr == "send":
             if isinstance(f.value, ast.Name) and f.value.id in ("conn", "connection"):
@@ -225,7 +227,7 @@ def analyse(func, cname, clsnode=None, skeleton=()):
     helpers = {}
     if clsnode is not None:
         for n in clsnode.body:
-            if isinstance(n, (ast.FunctionDef,)) and n.name.startswith("_") and not n.name.startswith("__") \
+            if isinstance(n, (ast.FunctionDef,)) and n.name.startswith("_") and not n.name.endswith("__") \
                     and n.name not in skeleton and n.name not in ATTR_KINDS and n is not func \
                     and not any(isinstance(x, (ast.FunctionDef, ast.AsyncFunctionDef, ast.ClassDef)) for x in ast.walk(n) if x is not n):
                 helpers[n.name] = n      # (a helper with nested definitions stays an opaque call, as any other call)
@@ -304,6 +306,9 @@ def analyse(func, cname, clsnode=None, skeleton=()):
     def translate(act, fall, retmap):
         if act == "ASwallow" and fall:
             act = fall
+        if act == "ARetOther":
+            need(retmap == "stmt", "except clause of %s returns a non-constant" % func.name)
+            return "ASwallow"
         if retmap == "while" and act in RET_ACTIONS:
             return "AContinue" if act == "ARetTrue" else "ABreak"
         if retmap == "stmt" and act in RET_ACTIONS:
